@@ -23,7 +23,8 @@ from .. import tool
 PROP = "C14"
 LEVEL = "fault_enumeration"
 RUNS = {"quick": 170, "thorough": 9000}
-TIME_CAP = {"quick": 400, "thorough": 3000}
+TIME_CAP = {"quick": 400, "thorough": 1500}
+CHUNK = 1          # runs per worker task (cost-aware: keeps the time cap responsive)
 RULE = ("AKAI volumes of 2-6 files and Roland performances of 2-5 samples (names pairwise at Hamming distance >= 2, no L/R pairs); one "
         "record is damaged per evaluation: enumerated block = every value 0..255 at the type byte, the two start-sector bytes and the "
         "size bytes of each entry of a fixed 3-file AKAI volume (thorough: every byte position of every entry, and every value at the key "
